@@ -103,7 +103,10 @@ func isErrorType(t types.Type) bool {
 type Sorts struct {
 	structs map[string]*StructSort // by sort name
 	order   []string
+	heapElem map[string]types.Type // heap key -> element type
 }
+
+var theSorts *Sorts
 
 type StructSort struct {
 	Name   string
@@ -117,7 +120,34 @@ type FieldSort struct {
 	Typ  types.Type
 }
 
-func newSorts() *Sorts { return &Sorts{structs: map[string]*StructSort{}} }
+func newSorts() *Sorts {
+	theSorts = &Sorts{structs: map[string]*StructSort{}, heapElem: map[string]types.Type{}}
+	return theSorts
+}
+
+// heapInitAxiom: every cell of the initial heap satisfies its type invariant (integer ranges,
+// slice header sanity, pointers below the initial allocator top).
+func (ss *Sorts) heapInitAxiom(key, h string) string {
+	t, ok := ss.heapElem[key]
+	if !ok {
+		return ""
+	}
+	rows := strings.HasPrefix(key, "HS_")
+	var cell string
+	if rows {
+		cell = "(select (select " + h + " r) k)"
+	} else {
+		cell = "(select " + h + " r)"
+	}
+	f := ss.rangeFact(t, cell, "top_0")
+	if f == "true" {
+		return ""
+	}
+	if rows {
+		return "(forall ((r Int) (k Int)) (! " + f + " :pattern (" + cell + ")))"
+	}
+	return "(forall ((r Int)) (! " + f + " :pattern (" + cell + ")))"
+}
 
 func sanitize(s string) string {
 	var b strings.Builder
@@ -265,10 +295,16 @@ func (ss *Sorts) heapKey(t types.Type, rows bool) string {
 	default:
 		base = "opq_" + sanitize(t.String())
 	}
+	key := "H_" + base
 	if rows {
-		return "HS_" + base
+		key = "HS_" + base
 	}
-	return "H_" + base
+	if ss.heapElem != nil {
+		if _, ok := ss.heapElem[key]; !ok {
+			ss.heapElem[key] = t
+		}
+	}
+	return key
 }
 
 func (ss *Sorts) heapSort(t types.Type, rows bool) string {
